@@ -483,10 +483,18 @@ impl Config {
                             })?;
                         let base: u32 = subnet.network().into();
                         let addresses = addresses.get_or_insert_with(Vec::new);
+                        /* Ipv4Subnet::new() guarantees that the prefix is at most 32 bits */
+                        let hostbits = 32 - subnet.prefixlen;
+                        if hostbits == 32 {
+                            return Err(Error::InvalidConfig(
+                                "apply-subnet: a /0 cannot be expanded into an address pool".into(),
+                            ));
+                        }
                         /* All host addresses: offsets 1 up to and including 2^n - 2 (the last
-                         * address, 2^n - 1, is the broadcast address).
+                         * address, 2^n - 1, is the broadcast address).  A /31 or /32 has none.
                          */
-                        for i in 1..((1 << (32 - subnet.prefixlen)) - 1) {
+                        let size: u32 = 1 << hostbits;
+                        for i in 1..size.saturating_sub(1) {
                             addresses.push((base + i).into())
                         }
                     }
